@@ -10,6 +10,9 @@ let exn_sx (e : exn) : sx = A (match e with
   | ValueError -> "ValueError" | IndexError -> "IndexError" | RecursionError -> "RecursionError"
   | HedFileError -> "HedFileError" | CacheError -> "CacheError" | Unmodelled -> "Unmodelled")
 
+(* strings are answered as ONE atom: 's' followed by the code points joined by '.' (cheap to parse) *)
+let str_sx (s : n list) : sx = A ("s" ^ String.concat "." (List.map (fun c -> string_of_int (int_of_n c)) s))
+
 let cur_table : table option ref = ref None
 let cur_ns : str ref = ref []
 let cur_fx : fixes ref = ref repaired
